@@ -70,16 +70,9 @@ def make_mp_store(root, cfg):
 
 
 def mp_lists_left(store):
-    bad = {}
-    for n, v in vars(store).items():
-        if "locked" in n and n.endswith("_mp"):
-            try:
-                l = list(v)
-            except Exception as e:  # manager gone
-                l = [f"<unreadable: {type(e).__name__}>"]
-            if l:
-                bad[n] = l
-    return bad
+    # every collection of locked identifiers the instance has (the multiprocessing-mode store has only the manager-backed
+    # ones filled); found by name through instance attributes AND class-level properties
+    return sched.locked_collections(store)
 
 
 # ---- family 2 / 3 programs ----------------------------------------------------------------------
@@ -142,7 +135,7 @@ def _case(draw, tier):
             (1, ops.hexd_op(PIDS)),
             (1, ops.REOPEN))
         return {"family": "diff", "cfg": cfg, "contents": cs, "docs": [{"hex": "6430"}, {"hex": "6431"}],
-                "ops": draw(st.lists(op, min_size=2, max_size=20))}
+                "ops": draw(ops.history(op, 2, 20))}
     sname = draw(st.sampled_from(["empty", "p=X", "p=X,q=X"]))
     n = draw(st.integers(2, 4))
     calls = [draw(st.sampled_from(FORK_MENU)) for _ in range(n)]
